@@ -20,7 +20,7 @@ def jobs_api(rng, thorough, with_other=False):
     """the user's disconnect callback handed to YncaApi: the link fails (EOF after k bytes / drop at time t) during or after initialize()"""
     T = core.tables()
     out = []
-    while len(out) < ((6000 if thorough else 150) if not with_other else (2000 if thorough else 50)):
+    while len(out) < ((6000 if thorough else 150) if not with_other else (600 if thorough else 50)):
         spec = gen.api_init_fault(rng, T)
         if spec["fault"] in ("eof", "drop"):
             if spec["fault"] == "drop" and rng.random() < 0.5:
